@@ -767,3 +767,169 @@ ref_crc(const CrcParams &p, const uint8_t *msg, size_t len)
                 crc = reflect(crc, p.width);
         return (crc ^ p.xorout) & mask;
 }
+
+// ---------------------------------------------------------------- key schedules (C11)
+#include <openssl/sha.h>
+#include <openssl/md5.h>
+static uint8_t
+gmul(uint8_t a, uint8_t b)
+{
+        uint8_t p = 0;
+        for (int i = 0; i < 8; i++) {
+                if (b & 1)
+                        p ^= a;
+                uint8_t hi = a & 0x80;
+                a <<= 1;
+                if (hi)
+                        a ^= 0x1b;
+                b >>= 1;
+        }
+        return p;
+}
+static uint8_t
+aes_sbox(uint8_t x)
+{
+        // multiplicative inverse in GF(2^8) followed by the affine transformation (FIPS-197 5.1.1)
+        uint8_t inv = 0;
+        if (x)
+                for (int c = 1; c < 256; c++)
+                        if (gmul(x, (uint8_t) c) == 1) {
+                                inv = (uint8_t) c;
+                                break;
+                        }
+        uint8_t r = 0;
+        for (int i = 0; i < 8; i++) {
+                uint8_t bit = ((inv >> i) ^ (inv >> ((i + 4) & 7)) ^ (inv >> ((i + 5) & 7)) ^ (inv >> ((i + 6) & 7)) ^
+                               (inv >> ((i + 7) & 7)) ^ (0x63 >> i)) & 1;
+                r |= (uint8_t) (bit << i);
+        }
+        return r;
+}
+void
+ref_aes_keyexp(const uint8_t *key, size_t key_len, uint8_t *enc, uint8_t *dec)
+{
+        static uint8_t sb[256];
+        static bool init = false;
+        if (!init) {
+                for (int i = 0; i < 256; i++)
+                        sb[i] = aes_sbox((uint8_t) i);
+                init = true;
+        }
+        const int Nk = (int) key_len / 4, Nr = Nk + 6, total = 4 * (Nr + 1);
+        uint8_t w[60][4];
+        for (int i = 0; i < Nk; i++)
+                memcpy(w[i], key + 4 * i, 4);
+        uint8_t rcon = 1;
+        for (int i = Nk; i < total; i++) {
+                uint8_t t[4];
+                memcpy(t, w[i - 1], 4);
+                if (i % Nk == 0) {
+                        uint8_t x = t[0];
+                        t[0] = (uint8_t) (sb[t[1]] ^ rcon);
+                        t[1] = sb[t[2]];
+                        t[2] = sb[t[3]];
+                        t[3] = sb[x];
+                        rcon = gmul(rcon, 2);
+                } else if (Nk > 6 && i % Nk == 4) {
+                        for (int k = 0; k < 4; k++)
+                                t[k] = sb[t[k]];
+                }
+                for (int k = 0; k < 4; k++)
+                        w[i][k] = w[i - Nk][k] ^ t[k];
+        }
+        memcpy(enc, w, (size_t) total * 4);
+        if (!dec)
+                return;
+        for (int r = 0; r <= Nr; r++) {
+                const uint8_t *src = enc + 16 * (Nr - r);
+                uint8_t *d = dec + 16 * r;
+                if (r == 0 || r == Nr) {
+                        memcpy(d, src, 16);
+                        continue;
+                }
+                for (int c = 0; c < 4; c++) {
+                        const uint8_t *a = src + 4 * c;
+                        d[4 * c + 0] = gmul(a[0], 14) ^ gmul(a[1], 11) ^ gmul(a[2], 13) ^ gmul(a[3], 9);
+                        d[4 * c + 1] = gmul(a[0], 9) ^ gmul(a[1], 14) ^ gmul(a[2], 11) ^ gmul(a[3], 13);
+                        d[4 * c + 2] = gmul(a[0], 13) ^ gmul(a[1], 9) ^ gmul(a[2], 14) ^ gmul(a[3], 11);
+                        d[4 * c + 3] = gmul(a[0], 11) ^ gmul(a[1], 13) ^ gmul(a[2], 9) ^ gmul(a[3], 14);
+                }
+        }
+}
+void
+ref_cmac_subkeys(const BlockCipher &c, uint8_t k1[16], uint8_t k2[16])
+{
+        uint8_t L[16] = { 0 };
+        c.enc(L, L);
+        memcpy(k1, L, 16);
+        dbl(k1, 16);
+        memcpy(k2, k1, 16);
+        dbl(k2, 16);
+}
+void
+ref_xcbc_keys(const uint8_t key[16], uint8_t k1[16], uint8_t k2[16], uint8_t k3[16])
+{
+        BlockCipher *k = new_aes(key, 16);
+        uint8_t c1[16], c2[16], c3[16];
+        memset(c1, 1, 16);
+        memset(c2, 2, 16);
+        memset(c3, 3, 16);
+        k->enc(c1, k1);
+        k->enc(c2, k2);
+        k->enc(c3, k3);
+        delete k;
+}
+size_t
+ref_hmac_pad_state(HashId h, const uint8_t *key, size_t key_len, uint8_t pad, uint8_t *out)
+{
+        const size_t B = hash_block(h);
+        Bytes k(B, 0);
+        if (key_len > B) {
+                Bytes kh = ref_hash(h, key, key_len);
+                memcpy(k.data(), kh.data(), kh.size());
+        } else if (key_len)
+                memcpy(k.data(), key, key_len);
+        for (auto &b : k)
+                b ^= pad;
+        switch (h) {
+        case H_SHA1: {
+                SHA_CTX c;
+                SHA1_Init(&c);
+                SHA1_Update(&c, k.data(), B);
+                uint32_t w[5] = { c.h0, c.h1, c.h2, c.h3, c.h4 };
+                memcpy(out, w, 20);
+                return 20;
+        }
+        case H_SHA224:
+        case H_SHA256: {
+                SHA256_CTX c;
+                if (h == H_SHA224)
+                        SHA224_Init(&c);
+                else
+                        SHA256_Init(&c);
+                SHA256_Update(&c, k.data(), B);
+                memcpy(out, c.h, 32);
+                return 32;
+        }
+        case H_SHA384:
+        case H_SHA512: {
+                SHA512_CTX c;
+                if (h == H_SHA384)
+                        SHA384_Init(&c);
+                else
+                        SHA512_Init(&c);
+                SHA512_Update(&c, k.data(), B);
+                memcpy(out, c.h, 64);
+                return 64;
+        }
+        case H_MD5: {
+                MD5_CTX c;
+                MD5_Init(&c);
+                MD5_Update(&c, k.data(), B);
+                uint32_t w[4] = { c.A, c.B, c.C, c.D };
+                memcpy(out, w, 16);
+                return 16;
+        }
+        default: return 0;
+        }
+}
